@@ -537,7 +537,8 @@ def _close(a: torch.Tensor, b: torch.Tensor, rel: float) -> bool:
 
 
 def _tensor_keys(out):
-    return [k for k, v in out.items() if isinstance(v, torch.Tensor)]
+    # keys may be str-enum members (`TransformKey.TARGET`): report them by their plain value
+    return [str.__str__(k) for k, v in out.items() if isinstance(v, torch.Tensor)]
 
 
 def _gauss_sample(seed, nc, ns, h, w, border, zero_coil):
@@ -610,6 +611,31 @@ def oracle(ctx: Ctx, deep: bool = False):
                   sample={"flags": {n: f[n] for n in ("crop", "recon", "smap_type", "scaling_key", "percentile", "ssl")},
                           "shape": list(k.shape)})
         yield from check_config(cfg, k)
+    # (i') extreme power-of-two scales (k-space magnitudes far below float32 eps / far above 1): nothing in the pipeline
+    #      may compare against an absolute constant (a clamp of the scaling factor, an absolute threshold, ...)
+    for sk, pct, ssl in itertools.product((0, 1), (0, 1), (0, 1)):
+        if ssl and (sk, pct) not in ((0, 1), (1, 0)):
+            continue
+        for _ in range(ctx.budget(1, 6)):
+            f = {**default_flags(), "scaling_key": sk, "percentile": pct, "ssl": ssl, "delete_kspace": 0,
+                 "recon": rng.randrange(6), "smap_type": rng.choice([1, 2]), "padding_eps": rng.choice([0, 1])}
+            cfg = {"flags": f, "seed": rng.randrange(2 ** 31), "shape": [rng.choice([1, 3]), rng.choice([8, 9, 10]), rng.choice([8, 11])],
+                   "percentile": rng.choice([0.99, 0.9]), "centered": rng.random() < 0.7}
+            ctx.count(("ladder", tuple(flag_list(f)), cfg["seed"], tuple(cfg["shape"])), True, bucket="oracle/scale-ladder")
+            yield from check_scale_ladder(cfg)
+    # (v') a scaling factor of exactly zero (empty slice, or signal only where the mask does not sample): the safe
+    #      division must leave every output finite (zero), never NaN/Inf
+    for sk, mode in ((0, "all-zero"), (1, "all-zero"), (0, "unsampled")):
+        for ssl in (0, 1):
+            for _ in range(ctx.budget(1, 5)):
+                f = {**default_flags(), "scaling_key": sk, "percentile": 0, "ssl": ssl, "delete_kspace": 0,
+                     "padding_eps": rng.choice([0, 1]) if mode == "all-zero" else 0, "recon": rng.randrange(6),
+                     "smap_type": rng.choice([1, 2])}
+                cfg = {"flags": f, "seed": rng.randrange(2 ** 31), "shape": [rng.choice([1, 3]), rng.choice([8, 10]), rng.choice([12, 16, 17])],
+                       "mode": mode, "centered": rng.random() < 0.7}
+                ctx.count(("zero-sf", tuple(flag_list(f)), cfg["seed"], tuple(cfg["shape"]), mode), True,
+                          bucket="oracle/zero-scaling-factor/" + mode)
+                yield from check_zero_sf(cfg)
     # (vi) one mask per file name — also across different k-space values and slice numbers
     for f in (default_flags(), {**default_flags(), "ssl": 1, "delete_kspace": 0}, {**default_flags(), "crop": 1, "padding_eps": 0}):
         for _ in range(ctx.budget(6, 40)):
@@ -758,6 +784,91 @@ def check_config(cfg, k: np.ndarray):
                                 {**rep, "key": kk, "expected": list(es), "observed": list(base[kk].shape)})
 
 
+def _int_sample(seed, nc, h, w):
+    """integer-valued complex data, |re|,|im| ≤ 64, no zero entries"""
+    g = np.random.RandomState(seed)
+    re = g.randint(1, 65, size=(nc, h, w)) * g.choice([-1, 1], size=(nc, h, w))
+    im = g.randint(1, 65, size=(nc, h, w)) * g.choice([-1, 1], size=(nc, h, w))
+    return (re + 1j * im).astype(np.complex64)
+
+
+LADDER = (-40, -30, -24, 30, 40)
+
+
+def check_scale_ladder(cfg):
+    f = cfg["flags"]
+    nc, h, w = cfg["shape"]
+    k = _int_sample(cfg["seed"], nc, h, w)
+    rep = {"op": "scale_ladder", **cfg}
+
+    def run(scale):
+        return run_real(_build_for(cfg), raw_sample((k * np.float32(scale)).astype(np.complex64)))
+
+    try:
+        base = run(1.0)
+    except Exception as e:  # noqa: BLE001
+        yield Violation("pipeline-raises", f"the composed transform raises {e}", {**rep, "observed": repr(e)})
+        return
+    for kpow in LADDER:
+        sc = 2.0 ** kpow
+        try:
+            o = run(sc)
+        except Exception as e:  # noqa: BLE001
+            yield Violation("scaled-raises", f"the transform raises on the input scaled by 2^{kpow}: {e}", {**rep, "kpow": kpow})
+            continue
+        for kk in _tensor_keys(o):
+            if not torch.isfinite(o[kk].float()).all():
+                yield Violation("nonfinite-" + kk, f"`{kk}` contains NaN/Inf for the input scaled by 2^{kpow}", {**rep, "kpow": kpow})
+        for kk in NORMALISED:
+            if kk in base and isinstance(base[kk], torch.Tensor) and (kk not in o or not torch.equal(base[kk], o[kk])):
+                d = (base[kk].float() - o[kk].float()).abs().max().item() if kk in o and base[kk].shape == o[kk].shape else "shape"
+                yield Violation("equivariance-pow2-" + kk, f"`{kk}` changes under scaling by 2^{kpow} (max diff {d})",
+                                {**rep, "kpow": kpow, "key": kk, "max_abs_diff": d})
+        s0, s1 = float(base["scaling_factor"]), float(o["scaling_factor"])
+        if s1 != s0 * sc:
+            yield Violation("scaling-factor-pow2", f"scaling_factor {s0} -> {s1} under scale 2^{kpow} (expected {s0 * sc})",
+                            {**rep, "kpow": kpow, "expected": s0 * sc, "observed": s1})
+
+
+def check_zero_sf(cfg):
+    """inputs whose scaling factor is exactly 0 (maximum of an identically zero tensor)"""
+    import direct.data.transforms as T
+
+    f = cfg["flags"]
+    nc, h, w = cfg["shape"]
+    rep = {"op": "zero_scaling_factor", **cfg}
+    regular = _gauss_sample(cfg["seed"], nc, 0, h, w, 0, False)
+    if cfg["mode"] == "all-zero":
+        k = np.zeros_like(regular)
+    else:
+        # the mask the pipeline generates for this file name / shape, then signal only where it does not sample
+        probe = run_real(_build_for({**cfg, "flags": {**f, "ssl": 0}}), raw_sample(regular))
+        cols = probe["sampling_mask"].reshape(h, w).any(0).numpy()
+        if cols.all():
+            return
+        k = regular * (~cols)[None, None, :]
+    try:
+        out = run_real(_build_for(cfg), raw_sample(k.astype(np.complex64)))
+    except Exception as e:  # noqa: BLE001
+        yield Violation("zero-scaling-factor-raises", f"the transform raises on a sample with scaling factor 0: {e}",
+                        {**rep, "observed": repr(e)})
+        return
+    sf = float(out["scaling_factor"])
+    if sf != 0.0:
+        yield Violation("zero-scaling-factor-not-zero", f"maximum of an identically zero tensor reported as {sf}",
+                        {**rep, "observed": sf})
+    for kk in _tensor_keys(out):
+        bad = int((~torch.isfinite(out[kk].float())).sum())
+        if bad:
+            yield Violation("nonfinite-zero-scaling-factor-" + kk,
+                            f"`{kk}` contains {bad} NaN/Inf entries when the scaling factor is 0 ({cfg['mode']})",
+                            {**rep, "key": kk, "bad_entries": bad})
+    if not f["ssl"] and all(torch.isfinite(out[kk]).all() for kk in ("kspace", "masked_kspace")):
+        exp, _ = T.apply_mask(out["kspace"], out["sampling_mask"])
+        if not torch.equal(out["masked_kspace"], exp):
+            yield Violation("masked-not-mask-of-normalised", "masked_kspace != apply_mask(kspace, sampling_mask) (scaling factor 0)", rep)
+
+
 def check_same_filename(cfg):
     f = cfg["flags"]
     nc, h, w = cfg["shape"]
@@ -792,6 +903,12 @@ def replay(rep: dict) -> bool:
             cfg = {kk: rep[kk] for kk in ("flags", "shape", "crop_shape", "seed", "border", "zero_coil", "centered", "pad_to",
                                           "percentile") if kk in rep}
             return any(True for _ in check_config(cfg, k))
+        if op == "scale_ladder":
+            cfg = {kk: rep[kk] for kk in ("flags", "seed", "shape", "percentile", "centered") if kk in rep}
+            return any(True for _ in check_scale_ladder(cfg))
+        if op == "zero_scaling_factor":
+            cfg = {kk: rep[kk] for kk in ("flags", "seed", "shape", "mode", "centered") if kk in rep}
+            return any(True for _ in check_zero_sf(cfg))
         if op == "same_filename":
             cfg = {kk: rep[kk] for kk in ("flags", "seed", "name", "shape")}
             return any(True for _ in check_same_filename(cfg))
